@@ -3,3 +3,4 @@ package icc
 var verifC09N = 148
 var verifC09D = 8
 var verifC09R = 1
+var verifC09Case = -1
